@@ -66,6 +66,13 @@ def gen_cases(ctx):
     cases.append({"op": "unique", "cols": ["a"], "frame": {"n": 0, "cols": [{"name": "a", "kind": "float", "vals": []}]}})
     cases.append({"op": "unique", "cols": ["a"], "frame": {"n": 4, "cols": [{"name": "a", "kind": "timedelta", "vals": [None, 1, None, 1]}]}})
     cases.append({"op": "tail", "n": 0, "frame": {"n": 3, "cols": [{"name": "a", "kind": "int", "vals": [1, 2, 3]}]}})
+    # small scope, every tier: keys that are equal as values but differ in representation (0.0 / -0.0, NaNs
+    # with different bit patterns: see vecgen.make_array), and the missing value of every key kind
+    for kind, alpha in (("float", ["nan", "-0.0", 0.0]), ("float", ["nan", 1.0]), ("date", [None, 0]), ("str", ["", "a"])):
+        for ln in range(2, 5):
+            for vals in itertools.product(alpha, repeat=ln):
+                spec = {"n": ln, "cols": [{"name": "a", "kind": kind, "vals": list(vals)}]}
+                cases.append({"op": "unique", "cols": ["a"], "frame": spec})
     n = 900 if ctx.tier == "quick" else 25000
     for _ in range(n):
         cases.append(gen_case(rng, ctx.tier))
